@@ -1340,6 +1340,23 @@ func doOp(o *Op) {
 					R.quiet = true
 					return
 				}
+				if o.Ctx == "staged" && i < len(R.cfg.Regs)-1 {
+					// the collection is built after EVERY registration call (whatever the verdict): the Build that is
+					// judged in the end sees a collection whose earlier states were validated, built and closed before
+					wasQuiet := R.quiet
+					R.quiet = true
+					func() {
+						defer func() { recover() }()
+						if p0, err := c.Build(); err == nil {
+							p0.Close()
+						}
+					}()
+					R.mu.Lock()
+					R.inv = map[string]int{}
+					R.provider = nil
+					R.mu.Unlock()
+					R.quiet = wasQuiet
+				}
 			}
 			if o.Ctx == "rebuild" {
 				// the collection is built, edited by Remove only, and built again: every required dependency nobody
